@@ -316,9 +316,77 @@ func c13Stress(col *concCollector, seed int64, dur time.Duration, only string) {
 			for i := 0; i < n; i++ {
 				c13CleanupVsRefresh(col, st, seed*977+int64(i), i)
 			}
+			c13PersistentSigFailed(col, st, seed*613)
 		}(st)
 	}
 	wg.Wait()
+}
+
+// c13PersistentSigFailed: the state "last refresh failed signature verification" made to LAST — the location serves a list
+// signed with a key no presented chain contains, so the flag is never cleared — while many handshakes for that location
+// (each of which enters the signer-certificate retry and asks for the entry's write lock), lookups and ticks run
+// concurrently. The old list stays in force: every call returns with the old list's verdict.
+func c13PersistentSigFailed(col *concCollector, storage string, seed int64) {
+	e := &c13Env{col: col, name: "sigfail-" + storage, storage: storage, fetch: "fetch_actively", rng: rand.New(rand.NewSource(seed))}
+	e.ca = NewCA(CAOpts{CN: "C13 SF CA", EC: true})
+	e.ca2 = e.ca
+	e.origin = NewConcOrigin()
+	defer e.origin.Close()
+	e.workDir = scratchDir("c13-sf")
+	v, err := Provision(VCfg{Mode: "crl_only", WorkDir: e.workDir, Storage: storage, UpdateInterval: "150ms", FetchMode: e.fetch})
+	if err != nil {
+		col.Violate("C13 provision-failed", fmt.Sprintf("sigfailed %s: %v", storage, err), nil)
+		return
+	}
+	e.v = v
+	e.chk = v.V.VerifCRLChecker()
+	repo := e.chk.VerifRepository()
+	l := e.newLoc("sf", false)
+	e.handshake(l.always, e.ca, "always", l, true) // first use: the genuine list comes into force
+	stranger := &CA{Cert: e.ca.Cert, Key: newECKey(), Name: e.ca.Name}
+	e.origin.SetBytes(l.path, stranger.MakeCRL(CRLOpts{Serials: []*big.Int{l.never.Cert.SerialNumber}, Number: 99}))
+	e.call(c13OpForced, "updateCRLsRecovering(true)", func() { e.chk.VerifUpdateCRLsRecovering(true) })
+	flagged := false
+	for _, en := range repo.VerifEntries() {
+		if en.LastUpdateSignatureVerifyFailed {
+			flagged = true
+		}
+	}
+	col.Count(fmt.Sprintf("sigfailed-persistent-state-reached:%v", flagged))
+	var wg sync.WaitGroup
+	for g := 0; g < 12; g++ {
+		wg.Add(1)
+		go func(g int) {
+			defer wg.Done()
+			for i := 0; i < 150; i++ {
+				if g%2 == 0 {
+					e.handshake(l.always, e.ca, "always", l, false)
+				} else {
+					e.handshake(l.never, e.ca, "never", l, false)
+				}
+			}
+		}(g)
+	}
+	for g := 0; g < 2; g++ {
+		wg.Add(1)
+		go func() {
+			defer wg.Done()
+			for i := 0; i < 6; i++ {
+				e.call(c13OpTick, "updateCRLs(true) in the failed-verification state", func() { e.chk.VerifUpdateCRLs(true) })
+				time.Sleep(time.Duration(2+e.intn(6)) * time.Millisecond)
+			}
+		}()
+	}
+	done := make(chan struct{})
+	go func() { wg.Wait(); close(done) }()
+	select {
+	case <-done:
+	case <-time.After(5 * c13CallTimeout):
+		col.Violate("C13 deadlock sigfailed-state", fmt.Sprintf("%s: operations still in flight %s after they were started, in the state 'last refresh failed signature verification': %s",
+			storage, 5*c13CallTimeout, e.inflightString()), nil)
+	}
+	col.Eval("sigfailed-persistent/"+storage, flagged)
+	e.call(c13OpCleanup, "Cleanup", func() { e.v.Close() })
 }
 
 // c13CleanupVsRefresh: a small repository (one configured CRL, one CDP CRL); Cleanup races a forced refresh,
